@@ -18,7 +18,7 @@ JOBS = {'quick': 4, 'thorough': 16}
 REQUIRED_MONITORS = ('equivariance_generic', 'invariants_axis_free', 'invariants_two_atom', 'distance_one_atom')
 REQUIRED_CLASSES = ('ref:1-atom', 'ref:2-atoms', 'ref:general', 'geometry:linear-z', 'geometry:partial-collinear',
                     'geometry:linear-moved', 'motion:generic', 'motion:translation', 'motion:rotation', 'motion:tiny',
-                    'motion:nearpi', 'motion:large-translation')
+                    'motion:nearpi', 'motion:large-translation', 'motion:half-turn-axis', 'motion:bond-flip')
 RULE = ('(reference, target, s) as in C01 plus references of 1 and 2 atoms; each mapped on M rigidly moved copies (M = 8 '
         'quick, 64 thorough; rotation classes generic/tiny/near-pi/identity x translations up to +-100 nm). Non-trivial: '
         'the motion is not the identity. distinct = distinct (reference class, geometry, motion class, s class, size bucket)')
@@ -29,7 +29,7 @@ ASSUMPTIONS = [
 ]
 TOL = 1e-8
 _cov = cover.Coverage()
-MOTIONS = ['generic', 'translation', 'rotation', 'tiny', 'nearpi', 'large-translation']
+MOTIONS = ['generic', 'translation', 'rotation', 'tiny', 'nearpi', 'large-translation', 'half-turn-axis', 'bond-flip']
 
 
 def setup(ctx):
@@ -52,8 +52,22 @@ def cases(ctx):
         yield {'batch': b}
 
 
-def gen_motion(rng, cls):
+def gen_motion(rng, cls, pos=None):
     t = rng.normal(size=3) * 3
+    if cls == 'half-turn-axis':
+        # exact half turns about a coordinate axis (exact in floating point)
+        d = [np.diag([1.0, -1.0, -1.0]), np.diag([-1.0, 1.0, -1.0]), np.diag([-1.0, -1.0, 1.0])][int(rng.integers(0, 3))]
+        return d, t if rng.random() < 0.5 else np.zeros(3)
+    if cls == 'bond-flip':
+        # (nearly) half a turn about an axis perpendicular to the first bond: reverses that bond's direction
+        if pos is None or len(pos) < 2:
+            return gen.random_rotation(rng, 'nearpi'), t
+        b = pos[1] - pos[0]
+        axis = np.cross(b, rng.normal(size=3))
+        if not np.any(axis):
+            axis = np.cross(b, np.array([1.0, 0.3, -0.2]))
+        eps = 0.0 if rng.random() < 0.3 else 10.0 ** rng.uniform(-8, -3) * rng.choice([-1, 1])
+        return gen.rodrigues(axis, np.pi + eps), t if rng.random() < 0.5 else np.zeros(3)
     if cls == 'generic':
         return gen.random_rotation(rng), rng.uniform(-100, 100, 3)
     if cls == 'translation':
@@ -122,7 +136,7 @@ def run_case(ctx, case):
             continue
         for m in range(M):
             mcls = MOTIONS[int(rng.integers(0, len(MOTIONS)))]
-            R, t = gen_motion(rng, mcls)
+            R, t = gen_motion(rng, mcls, pos)
             pos2 = pos @ R.T + t
             try:
                 out2 = np.array(emap(emmon.with_positions(refm, pos2)).atoms_positions)
